@@ -2,6 +2,7 @@
 From Coq Require Import List NArith Bool Lia PeanoNat.
 Import ListNotations.
 Require Import Parser SFetch Pipe Drivers Grammar Resolver Loader C02base C02rest C02tail C02run Depth.
+Require SBase SPrim Consts.
 Local Open Scope nat_scope.
 
 (* ------------------------------------------------------------------------------------------------ *)
@@ -25,15 +26,15 @@ Proof. reflexivity. Qed.
 Definition node_claim (fuel : nat) : Prop :=
   forall d evs r m, pl_node fuel d evs = PlDone r m ->
     exists used, evs = used ++ r /\ d <= m /\
-      forall c mx, c <= mx -> depth_run c mx used = (c, Nat.max mx (c + (m - d))).
+      forall c mx, depth_run c mx used = (c, Nat.max mx (c + (m - d))).
 Definition seq_claim (fuel : nat) : Prop :=
   forall d evs r m, pl_sequence fuel d evs = PlDone r m ->
     exists used, evs = used ++ r /\ d <= m /\
-      forall c mx, S c <= mx -> depth_run (S c) mx used = (c, Nat.max mx (c + (m - d))).
+      forall c mx, c <= mx -> depth_run (S c) mx used = (c, Nat.max mx (c + (m - d))).
 Definition map_claim (fuel : nat) : Prop :=
   forall d evs r m, pl_mapping fuel d evs = PlDone r m ->
     exists used, evs = used ++ r /\ d <= m /\
-      forall c mx, S c <= mx -> depth_run (S c) mx used = (c, Nat.max mx (c + (m - d))).
+      forall c mx, c <= mx -> depth_run (S c) mx used = (c, Nat.max mx (c + (m - d))).
 
 Lemma pl_claims fuel : node_claim fuel /\ seq_claim fuel /\ map_claim fuel.
 Proof.
@@ -45,16 +46,16 @@ Proof.
       destruct evs as [|e evs]; [discriminate|].
       destruct e; try discriminate.
       * inversion H; subst. exists [EAlias id]. split; [reflexivity|]. split; [lia|].
-        intros c mx Hc. rewrite depth_run_cons. cbn. f_equal. lia.
+        intros c mx. rewrite depth_run_cons. cbn [depth_step fst snd]. rewrite depth_run_nil. f_equal. lia.
       * inversion H; subst. exists [EScalar v st aid tg]. split; [reflexivity|]. split; [lia|].
-        intros c mx Hc. rewrite depth_run_cons. cbn. f_equal. lia.
+        intros c mx. rewrite depth_run_cons. cbn [depth_step fst snd]. rewrite depth_run_nil. f_equal. lia.
       * destruct (IHs _ _ _ _ H) as (used & E & Hd & Hrun).
         exists (ESequenceStart aid tg :: used). split; [rewrite E; reflexivity|]. split; [exact Hd|].
-        intros c mx Hc. rewrite depth_run_cons. cbn [depth_step fst snd].
+        intros c mx. rewrite depth_run_cons. cbn [depth_step fst snd].
         rewrite Hrun by lia. f_equal. lia.
       * destruct (IHm _ _ _ _ H) as (used & E & Hd & Hrun).
         exists (EMappingStart aid tg :: used). split; [rewrite E; reflexivity|]. split; [exact Hd|].
-        intros c mx Hc. rewrite depth_run_cons. cbn [depth_step fst snd].
+        intros c mx. rewrite depth_run_cons. cbn [depth_step fst snd].
         rewrite Hrun by lia. f_equal. lia.
     + (* load_sequence *)
       intros d evs r m H. cbn [pl_sequence] in H.
@@ -65,7 +66,7 @@ Proof.
         | x => x
         end = PlDone r m ->
         exists used, e :: evs = used ++ r /\ d <= m /\
-          forall c mx, S c <= mx -> depth_run (S c) mx used = (c, Nat.max mx (c + (m - d)))).
+          forall c mx, c <= mx -> depth_run (S c) mx used = (c, Nat.max mx (c + (m - d)))).
       { clear H. intros H.
         destruct (pl_node f (S d) (e :: evs)) as [r0 m0| | |] eqn:E1; try discriminate.
         destruct (pl_sequence f d r0) as [r1 m1| | |] eqn:E2; try discriminate.
@@ -73,11 +74,11 @@ Proof.
         destruct (IHn _ _ _ _ E1) as (u1 & A1 & D1 & R1).
         destruct (IHs _ _ _ _ E2) as (u2 & A2 & D2 & R2).
         exists (u1 ++ u2). split; [rewrite A1, A2, app_assoc; reflexivity|]. split; [lia|].
-        intros c mx Hc. rewrite depth_run_app, R1 by lia. cbn [fst snd].
+        intros c mx Hc. rewrite depth_run_app, R1. cbn [fst snd].
         rewrite R2 by lia. f_equal. lia. }
       destruct e; try (apply Hloop; exact H).
       inversion H; subst. exists [ESequenceEnd]. split; [reflexivity|]. split; [lia|].
-      intros c mx Hc. rewrite depth_run_cons. cbn. f_equal. lia.
+      intros c mx Hc. rewrite depth_run_cons. cbn [depth_step fst snd]. rewrite depth_run_nil. f_equal. lia.
     + (* load_mapping *)
       intros d evs r m H. cbn [pl_mapping] in H.
       destruct evs as [|e evs]; [discriminate|].
@@ -95,7 +96,7 @@ Proof.
         | x => x
         end = PlDone r m ->
         exists used, e :: evs = used ++ r /\ d <= m /\
-          forall c mx, S c <= mx -> depth_run (S c) mx used = (c, Nat.max mx (c + (m - d)))).
+          forall c mx, c <= mx -> depth_run (S c) mx used = (c, Nat.max mx (c + (m - d)))).
       { clear H. intros H.
         destruct (pl_node f (S d) (e :: evs)) as [r0 m0| | |] eqn:E1; try discriminate.
         destruct (pl_node f (S d) r0) as [r1 m1| | |] eqn:E2; try discriminate.
@@ -105,12 +106,12 @@ Proof.
         destruct (IHn _ _ _ _ E2) as (u2 & A2 & D2 & R2).
         destruct (IHm _ _ _ _ E3) as (u3 & A3 & D3 & R3).
         exists (u1 ++ u2 ++ u3). split; [rewrite A1, A2, A3, !app_assoc; reflexivity|]. split; [lia|].
-        intros c mx Hc. rewrite depth_run_app, R1 by lia. cbn [fst snd].
-        rewrite depth_run_app, R2 by lia. cbn [fst snd].
+        intros c mx Hc. rewrite depth_run_app, R1. cbn [fst snd].
+        rewrite depth_run_app, R2. cbn [fst snd].
         rewrite R3 by lia. f_equal. lia. }
       destruct e; try (apply Hloop; exact H).
       inversion H; subst. exists [EMappingEnd]. split; [reflexivity|]. split; [lia|].
-      intros c mx Hc. rewrite depth_run_cons. cbn. f_equal. lia.
+      intros c mx Hc. rewrite depth_run_cons. cbn [depth_step fst snd]. rewrite depth_run_nil. f_equal. lia.
 Qed.
 
 (* Whenever load_node returns (with whatever fuel): it consumed a well-nested prefix, and the deepest
@@ -120,6 +121,505 @@ Theorem push_loader_recursion_depth fuel d evs r m :
   exists used, evs = used ++ r /\ open_depth used = 0 /\ m = d + max_nesting used.
 Proof.
   intros H. destruct (proj1 (pl_claims fuel) _ _ _ _ H) as (used & E & Hd & Hrun).
-  exists used. split; [exact E|]. unfold open_depth, max_nesting. rewrite (Hrun 0 0) by lia.
+  exists used. split; [exact E|]. unfold open_depth, max_nesting. rewrite (Hrun 0 0).
   cbn [fst snd]. split; [reflexivity|]. lia.
+Qed.
+
+(* ------------------------------------------------------------------------------------------------ *)
+(* 3. structural recursion over the tree: depth reached = entry depth + depth of the tree            *)
+(* ------------------------------------------------------------------------------------------------ *)
+Section YamlInd.
+  Variable P : yaml -> Prop.
+  Hypothesis HV : forall v, P (YVal v).
+  Hypothesis HB : P YBad.
+  Hypothesis HS : forall l, Forall P l -> P (YSeq l).
+  Hypothesis HM : forall l, Forall (fun kv => P (fst kv) /\ P (snd kv)) l -> P (YMap l).
+  Fixpoint yaml_nested_ind (y : yaml) : P y :=
+    match y with
+    | YVal v => HV v
+    | YBad => HB
+    | YSeq l => HS l ((fix go (l : list yaml) : Forall P l :=
+                         match l with
+                         | [] => Forall_nil P
+                         | x :: r => Forall_cons x (yaml_nested_ind x) (go r)
+                         end) l)
+    | YMap l => HM l ((fix go (l : list (yaml * yaml)) : Forall (fun kv => P (fst kv) /\ P (snd kv)) l :=
+                         match l with
+                         | [] => Forall_nil _
+                         | kv :: r => Forall_cons kv (conj (yaml_nested_ind (fst kv)) (yaml_nested_ind (snd kv))) (go r)
+                         end) l)
+    end.
+End YamlInd.
+
+Lemma list_max_map_shift {A} (f g : A -> nat) d l :
+  Forall (fun x => f x = d + g x) l -> l <> [] -> list_max (map f l) = d + list_max (map g l).
+Proof.
+  induction 1 as [|x r Hx Hr IH]; intros HN; [congruence|].
+  cbn [map list_max fold_right]. fold (list_max (map f r)). fold (list_max (map g r)).
+  destruct r as [|y r'].
+  - cbn. lia.
+  - rewrite IH by discriminate. lia.
+Qed.
+
+Theorem walk_depth_is_tree_depth : forall y d, ywalk d y = d + ydepth y.
+Proof.
+  induction y as [v| |l IH|l IH] using yaml_nested_ind; intros d; cbn [ywalk ydepth]; try lia.
+  - destruct l as [|x r]; [cbn; lia|].
+    rewrite (list_max_map_shift (fun x => ywalk (S d) x) (fun x => S (ydepth x)) d); [lia| |discriminate].
+    eapply Forall_impl; [|exact IH]. cbn beta. intros a Ha. rewrite Ha. lia.
+  - destruct l as [|x r]; [cbn; lia|].
+    rewrite (list_max_map_shift (fun kv => Nat.max (ywalk (S d) (fst kv)) (ywalk (S d) (snd kv)))
+                                (fun kv => Nat.max (S (ydepth (fst kv))) (S (ydepth (snd kv)))) d);
+      [lia| |discriminate].
+    eapply Forall_impl; [|exact IH]. cbn beta. intros a [Ha Hb]. rewrite Ha, Hb. lia.
+Qed.
+
+Lemma ydepth_nest_seq n leaf : ydepth (nest_seq n leaf) = n + ydepth leaf.
+Proof.
+  induction n as [|n IH]; [reflexivity|].
+  cbn [nest_seq ydepth map list_max fold_right]. rewrite IH. lia.
+Qed.
+
+(* ------------------------------------------------------------------------------------------------ *)
+(* 4. the pull parser: its continuation lives on the heap stack [p_states]; the stack length is tied   *)
+(*    to the number of constructs currently open in the event sentence (C02's invariant)               *)
+(* ------------------------------------------------------------------------------------------------ *)
+Definition gframes (g : gstate) : list frame := match g with GStream stk => stk | _ => [] end.
+Definition gdepth (g : gstate) : nat := length (gframes g).
+
+Lemma cont_frames_len s : cont_ok s = true \/ s = SDocumentEnd -> 1 <= length (cont_frames s) <= 2.
+Proof. intros [H| ->]; [destruct s; try discriminate H|]; cbn; lia. Qed.
+
+Lemma rooted_frames stk : Rooted stk -> length stk <= length (stack_frames stk) <= 2 * length stk.
+Proof.
+  induction 1 as [|s r Hc HR IH].
+  - cbn. lia.
+  - unfold stack_frames in *. cbn [flat_map]. rewrite app_length. cbn [length].
+    pose proof (cont_frames_len s (or_introl Hc)). lia.
+Qed.
+
+Lemma cur_frames_len st a : cur_frames st = Some a -> length a <= 2.
+Proof. destruct st; cbn; intros H; inversion H; cbn; lia. Qed.
+
+(* heap stack of the pull parser <= open constructs of the sentence so far <= 2 * stack + 2 *)
+Lemma inv_stack_bounds p g : Inv p g -> length (p_states p) <= gdepth g <= 2 * length (p_states p) + 2.
+Proof.
+  unfold Inv, InvS, gdepth.
+  destruct (p_state p);
+    try (intros [-> ->]; cbn; lia);
+    intros [HR [a [Ha ->]]]; cbn [gframes]; rewrite app_length;
+    pose proof (rooted_frames _ HR); pose proof (cur_frames_len _ _ Ha); lia.
+Qed.
+
+(* the acceptor's stack: collection frames + at most one document frame at the bottom *)
+Definition is_coll (f : frame) : bool := match f with FSeq | FMapKey | FMapVal => true | _ => false end.
+Definition is_doc (f : frame) : bool := negb (is_coll f).
+Definition wf_frames (stk : list frame) : Prop :=
+  exists cs ds, stk = cs ++ ds /\ forallb is_coll cs = true /\ (ds = [] \/ ds = [FDoc] \/ ds = [FDocDone]).
+
+Lemma wf_len stk : wf_frames stk -> length stk <= S (length (filter is_coll stk)).
+Proof.
+  intros (cs & ds & -> & Hc & Hd). rewrite filter_app, !app_length.
+  assert (length (filter is_coll cs) = length cs).
+  { clear Hd. induction cs as [|x r IH]; [reflexivity|]. cbn in Hc. apply andb_prop in Hc as [A B].
+    cbn [filter]. rewrite A. cbn [length]. rewrite IH by exact B. reflexivity. }
+  destruct Hd as [-> | [-> | ->]]; cbn; lia.
+Qed.
+
+Lemma filter_len_le {A} (f : A -> bool) l : length (filter f l) <= length l.
+Proof. induction l as [|x r IH]; [apply le_n|]. cbn [filter]. destruct (f x); cbn [length]; lia. Qed.
+
+Definition colls (g : gstate) : nat := length (filter is_coll (gframes g)).
+Definition wf_g (g : gstate) : Prop := wf_frames (gframes g).
+
+Lemma wf_cons_coll f stk : is_coll f = true -> wf_frames stk -> wf_frames (f :: stk).
+Proof.
+  intros Hf (cs & ds & -> & Hc & Hd). exists (f :: cs), ds. repeat split; auto. cbn. rewrite Hf, Hc. reflexivity.
+Qed.
+
+Lemma wf_tail f stk : is_coll f = true -> wf_frames (f :: stk) -> wf_frames stk.
+Proof.
+  intros Hf (cs & ds & E & Hc & Hd). destruct cs as [|x cs].
+  - cbn in E. subst ds. destruct Hd as [H | [H | H]]; inversion H; subst; discriminate.
+  - cbn in E. inversion E; subst. cbn in Hc. apply andb_prop in Hc as [_ B]. exists cs, ds. auto.
+Qed.
+
+Lemma complete_wf stk stk' :
+  complete stk = Some stk' -> wf_frames stk -> wf_frames stk' /\ length (filter is_coll stk') = length (filter is_coll stk).
+Proof.
+  destruct stk as [|f r]; [discriminate|].
+  destruct f; cbn [complete]; intros H; inversion H; subst; clear H; intros W.
+  - split; [exact W | reflexivity].
+  - split; [|reflexivity]. apply wf_cons_coll; [reflexivity|]. eapply wf_tail; [|exact W]. reflexivity.
+  - split; [|reflexivity]. apply wf_cons_coll; [reflexivity|]. eapply wf_tail; [|exact W]. reflexivity.
+  - split; [|reflexivity]. destruct W as (cs & ds & E & Hc & Hd). destruct cs as [|x cs].
+    + cbn in E. subst ds. destruct Hd as [Hd | [Hd | Hd]]; inversion Hd; subst.
+      exists [], [FDocDone]. repeat split; auto.
+    + cbn in E. inversion E; subst. cbn in Hc. discriminate.
+Qed.
+
+(* one event: well-formedness of the acceptor stack is kept, and the number of collection frames moves
+   exactly like the running counter of [depth_step] *)
+Lemma gstep_colls g e g' :
+  gstep g e = Some g' -> wf_g g -> wf_g g' /\ forall m, colls g' = fst (depth_step (colls g, m) e).
+Proof.
+  unfold wf_g, colls.
+  destruct e; destruct g as [|stk|]; cbn [gstep on_stream depth_step fst gframes]; try discriminate.
+  - intros H; inversion H; subst. intros _. split; [exists [], []; cbn; auto|reflexivity].
+  - destruct stk; [|discriminate]. intros H; inversion H; subst. intros _. split; [exists [], []; cbn; auto|reflexivity].
+  - destruct stk; [|discriminate]. intros H; inversion H; subst. intros _.
+    split; [exists [], [FDoc]; cbn; auto|reflexivity].
+  - destruct stk as [|f [|? ?]]; try discriminate; destruct f; try discriminate.
+    intros H; inversion H; subst. intros _. split; [exists [], []; cbn; auto|reflexivity].
+  - destruct (complete stk) as [stk'|] eqn:C; [|discriminate]. cbn [option_map]. intros H; inversion H; subst.
+    intros W. destruct (complete_wf _ _ C W) as [A B]. cbn [gframes]. split; [exact A|intros; exact B].
+  - destruct (complete stk) as [stk'|] eqn:C; [|discriminate]. cbn [option_map]. intros H; inversion H; subst.
+    intros W. destruct (complete_wf _ _ C W) as [A B]. cbn [gframes]. split; [exact A|intros; exact B].
+  - destruct (node_ok stk); [|discriminate]. intros H; inversion H; subst. intros W. cbn [gframes].
+    split; [apply wf_cons_coll; [reflexivity|exact W]|reflexivity].
+  - destruct stk as [|f r]; [discriminate|]. destruct f; try discriminate.
+    destruct (complete r) as [r'|] eqn:C; [|discriminate]. cbn [option_map]. intros H; inversion H; subst.
+    intros W. assert (W' : wf_frames r) by (eapply wf_tail; [|exact W]; reflexivity).
+    destruct (complete_wf _ _ C W') as [A B]. cbn [gframes]. split; [exact A|]. intros _. rewrite B. reflexivity.
+  - destruct (node_ok stk); [|discriminate]. intros H; inversion H; subst. intros W. cbn [gframes].
+    split; [apply wf_cons_coll; [reflexivity|exact W]|reflexivity].
+  - destruct stk as [|f r]; [discriminate|]. destruct f; try discriminate.
+    destruct (complete r) as [r'|] eqn:C; [|discriminate]. cbn [option_map]. intros H; inversion H; subst.
+    intros W. assert (W' : wf_frames r) by (eapply wf_tail; [|exact W]; reflexivity).
+    destruct (complete_wf _ _ C W') as [A B]. cbn [gframes]. split; [exact A|]. intros _. rewrite B. reflexivity.
+Qed.
+
+Lemma grun_colls evs : forall g g' c m,
+  grun g evs = Some g' -> wf_g g -> colls g = c -> wf_g g' /\ colls g' = fst (depth_run c m evs).
+Proof.
+  induction evs as [|e r IH]; intros g g' c m H W Hc.
+  - cbn in H. inversion H; subst. auto.
+  - cbn [grun] in H. destruct (gstep g e) as [g1|] eqn:E; [|discriminate].
+    destruct (gstep_colls _ _ _ E W) as [W1 C1].
+    rewrite depth_run_cons. subst c.
+    eapply IH; [exact H|exact W1|]. rewrite (C1 m). reflexivity.
+Qed.
+
+(* states the pull parser can reach from its initial state, with the events delivered so far *)
+Inductive reach (p0 : parser) : parser -> list event -> Prop :=
+| reach_init : reach p0 p0 []
+| reach_step p evs e sp p' :
+    reach p0 p evs -> p_state p <> SEnd -> state_machine p = Parser.Ok ((e, sp), p') -> reach p0 p' (evs ++ [e]).
+
+Lemma reach_inv toks keep p evs :
+  reach (init_parser toks keep) p evs -> exists g, grun GInit evs = Some g /\ Inv p g.
+Proof.
+  induction 1 as [|p evs e sp p' HR [g [Hg HI]] HNE HS].
+  - exists GInit. split; [reflexivity|apply init_inv].
+  - pose proof (state_machine_post p g HI HNE) as HP. rewrite HS in HP. destruct HP as [g' [Hs HI']].
+    exists g'. split; [|exact HI']. rewrite grun_app, Hg. cbn [grun]. rewrite Hs. reflexivity.
+Qed.
+
+(* For EVERY token list: in every reachable state, the heap stack of the pull parser holds at most one
+   entry per collection currently open in the delivered events, plus one (the document); and the stack
+   does grow with the nesting: it holds at least (open - 2) / 2 entries. *)
+Theorem pull_stack_bounded_by_open_depth toks keep p evs :
+  reach (init_parser toks keep) p evs ->
+  length (p_states p) <= open_depth evs + 1 /\ open_depth evs <= 2 * length (p_states p) + 2.
+Proof.
+  intros HR. destruct (reach_inv _ _ _ _ HR) as [g [Hg HI]].
+  pose proof (inv_stack_bounds _ _ HI) as [B1 B2].
+  assert (W0 : wf_g GInit) by (exists [], []; cbn; auto).
+  destruct (grun_colls evs GInit g 0 0 Hg W0 eq_refl) as [W C].
+  unfold open_depth. rewrite <- C. unfold colls.
+  pose proof (wf_len _ W) as L. unfold gdepth in *.
+  assert (length (filter is_coll (gframes g)) <= length (gframes g)) by apply filter_len_le.
+  lia.
+Qed.
+
+(* one step moves the number of open collections by at most one *)
+Lemma depth_step_delta c m e : fst (depth_step (c, m) e) <= S c /\ c <= S (fst (depth_step (c, m) e)).
+Proof. destruct e; cbn; lia. Qed.
+
+(* ------------------------------------------------------------------------------------------------ *)
+(* 5. the witness family through the parser model: block nesting of EVERY depth is accepted           *)
+(* ------------------------------------------------------------------------------------------------ *)
+Definition mkp (keep : bool) (toks : list token) (c : option token) (stk : list pstate) (st : pstate) : parser :=
+  {| p_toks := toks; p_token := c; p_states := stk; p_state := st;
+     p_anchors := []; p_anchor_id := 1%N; p_tags := []; p_keep_tags := keep |}.
+
+Definition evsp (l : list event) : list (event * span) := map (fun e => (e, sp0)) l.
+
+Lemma first_entry_step n keep rest stk :
+  state_machine (mkp keep (tk TBlockEntry :: nhd n :: rest) (Some (tk TBlockSequenceStart)) stk SBlockSequenceFirstEntry)
+  = parse_node (mkp keep rest (Some (nhd n)) (SBlockSequenceEntry :: stk) SBlockSequenceFirstEntry) true false.
+Proof. destruct n; reflexivity. Qed.
+
+Lemma seq_end_step keep rest c stk :
+  state_machine (mkp keep (tk TBlockEnd :: rest) None (c :: stk) SBlockSequenceEntry)
+  = Parser.Ok ((ESequenceEnd, sp0), mkp keep rest None stk c).
+Proof. reflexivity. Qed.
+
+Lemma node_run : forall n keep rest c stk st,
+  exists first p1,
+    parse_node (mkp keep (ntl n rest) (Some (nhd n)) (c :: stk) st) true false = Parser.Ok ((first, sp0), p1)
+    /\ forall fuel se acc,
+         parse_all (2 * n + fuel) p1 se ((first, sp0) :: acc)
+         = parse_all fuel (mkp keep rest None stk c) se (rev (evsp (node_evs n)) ++ acc).
+Proof.
+  induction n as [|n IH]; intros keep rest c stk st.
+  - exists leaf_ev, (mkp keep rest None stk c). split; [reflexivity|]. intros fuel se acc. reflexivity.
+  - exists (ESequenceStart 0%N None),
+           (mkp keep (ntl (S n) rest) (Some (tk TBlockSequenceStart)) (c :: stk) SBlockSequenceFirstEntry).
+    split; [reflexivity|]. intros fuel se acc.
+    replace (2 * S n + fuel) with (S (2 * n + S fuel)) by lia.
+    rewrite parse_all_S. cbn [mkp p_state]. unfold step_result.
+    cbn [ntl]. rewrite first_entry_step.
+    destruct (IH keep (tk TBlockEnd :: rest) SBlockSequenceEntry (c :: stk) SBlockSequenceFirstEntry)
+      as (first & p1 & Hp & Hrun).
+    rewrite Hp, Hrun.
+    rewrite parse_all_S. cbn [mkp p_state]. unfold step_result. rewrite seq_end_step.
+    f_equal. cbn [node_evs]. unfold evsp. cbn [map]. rewrite map_app. cbn [map rev].
+    rewrite rev_app_distr. cbn [rev app]. rewrite <- !app_assoc. reflexivity.
+Qed.
+
+(* the whole stream *)
+Definition seq_result (d : nat) : list (event * span) := evsp (seq_events d).
+
+Lemma stream_start_step keep rest :
+  state_machine (init_parser (tk TStreamStart :: rest) keep)
+  = Parser.Ok ((EStreamStart, sp0), mkp keep rest None [] SImplicitDocumentStart).
+Proof. reflexivity. Qed.
+
+Lemma doc_start_step d keep rest :
+  state_machine (mkp keep (nhd d :: rest) None [] SImplicitDocumentStart)
+  = Parser.Ok ((EDocumentStart false, sp0), mkp keep rest (Some (nhd d)) [SDocumentEnd] SBlockNode).
+Proof. destruct d; reflexivity. Qed.
+
+Lemma doc_end_step keep :
+  state_machine (mkp keep [tk TStreamEnd] None [] SDocumentEnd)
+  = Parser.Ok ((EDocumentEnd, sp0), mkp keep [] (Some (tk TStreamEnd)) [] SDocumentStart).
+Proof. destruct keep; reflexivity. Qed.
+
+Lemma stream_end_step keep :
+  state_machine (mkp keep [] (Some (tk TStreamEnd)) [] SDocumentStart)
+  = Parser.Ok ((EStreamEnd, sp0), mkp keep [] None [] SEnd).
+Proof. reflexivity. Qed.
+
+Lemma seq_tokens_run d keep se fuel :
+  parse_all (2 * d + 6 + fuel) (init_parser (seq_tokens d) keep) se [] = (seq_result d, PDone).
+Proof.
+  unfold seq_tokens.
+  replace (2 * d + 6 + fuel) with (S (S (S (2 * d + S (S (S fuel)))))) by lia.
+  rewrite parse_all_S. cbn [init_parser p_state]. unfold step_result. rewrite stream_start_step.
+  rewrite parse_all_S. cbn [mkp p_state]. unfold step_result. rewrite doc_start_step.
+  rewrite parse_all_S. cbn [mkp p_state]. unfold step_result.
+  change (state_machine (mkp keep (ntl d [tk TStreamEnd]) (Some (nhd d)) [SDocumentEnd] SBlockNode))
+    with (parse_node (mkp keep (ntl d [tk TStreamEnd]) (Some (nhd d)) [SDocumentEnd] SBlockNode) true false).
+  destruct (node_run d keep [tk TStreamEnd] SDocumentEnd [] SBlockNode) as (first & p1 & Hp & Hrun).
+  rewrite Hp, Hrun.
+  rewrite parse_all_S. cbn [mkp p_state]. unfold step_result. rewrite doc_end_step.
+  rewrite parse_all_S. cbn [mkp p_state]. unfold step_result. rewrite stream_end_step.
+  rewrite parse_all_S. cbn [mkp p_state].
+  f_equal. unfold seq_result, seq_events, evsp. cbn [rev app map]. rewrite !map_app. cbn [map].
+  rewrite rev_app_distr, rev_involutive. cbn [rev app]. rewrite <- !app_assoc. reflexivity.
+Qed.
+
+Lemma ntl_length n rest : length (ntl n rest) = 3 * n + length rest.
+Proof.
+  revert rest; induction n as [|n IH]; intros rest; [reflexivity|].
+  cbn [ntl length]. rewrite IH. cbn [length]. lia.
+Qed.
+
+Lemma seq_tokens_length d : length (seq_tokens d) = 3 * d + 3.
+Proof. unfold seq_tokens. cbn [length]. rewrite ntl_length. cbn [length]. lia. Qed.
+
+(* the family is the flat stream  StreamStart (BlockSequenceStart BlockEntry)^d Scalar BlockEnd^d StreamEnd *)
+Lemma repeat_snoc_cons {A} (x : A) n r : repeat x n ++ x :: r = x :: repeat x n ++ r.
+Proof. induction n as [|n IH]; [reflexivity|]. cbn [repeat app]. rewrite IH. reflexivity. Qed.
+
+Lemma nhd_ntl_flat n rest :
+  nhd n :: ntl n rest
+  = flat_map (fun _ => [tk TBlockSequenceStart; tk TBlockEntry]) (repeat tt n) ++ tk leaf_tok :: repeat (tk TBlockEnd) n ++ rest.
+Proof.
+  revert rest; induction n as [|n IH]; intros rest; [reflexivity|].
+  cbn [nhd ntl]. rewrite IH. cbn [repeat flat_map app]. rewrite repeat_snoc_cons. reflexivity.
+Qed.
+
+Lemma seq_tokens_is_flat d : seq_tokens d = seq_tokens_flat d.
+Proof. unfold seq_tokens, seq_tokens_flat. rewrite nhd_ntl_flat. reflexivity. Qed.
+
+(* the parser model accepts it (driver entry point [parse_tokens]: fuel 4 * tokens + 40) *)
+Lemma seq_tokens_accepted d keep se : parse_tokens (seq_tokens d) se keep = (seq_result d, PDone).
+Proof.
+  unfold parse_tokens. rewrite seq_tokens_length.
+  replace (4 * (3 * d + 3) + 40) with (2 * d + 6 + (10 * d + 46)) by lia.
+  apply (seq_tokens_run d keep se).
+Qed.
+
+Lemma evs_of_evsp l : evs_of (evsp l) = l.
+Proof. unfold evs_of, evsp. rewrite map_map. cbn. apply map_id. Qed.
+
+(* nesting depth of the family *)
+Lemma node_evs_depth n : forall c m tail,
+  depth_run c m (node_evs n ++ tail) = depth_run c (Nat.max m (c + n)) tail.
+Proof.
+  induction n as [|n IH]; intros c m tail.
+  - cbn [node_evs app]. rewrite depth_run_cons. cbn [depth_step leaf_ev fst snd]. rewrite Nat.add_0_r. reflexivity.
+  - cbn [node_evs app]. rewrite depth_run_cons. cbn [depth_step fst snd].
+    rewrite <- app_assoc. rewrite IH. cbn [app]. rewrite depth_run_cons. cbn [depth_step fst snd Nat.pred].
+    f_equal. lia.
+Qed.
+
+Lemma seq_events_depth d : max_nesting (seq_events d) = d /\ open_depth (seq_events d) = 0.
+Proof.
+  unfold max_nesting, open_depth, seq_events.
+  rewrite !depth_run_cons. cbn [depth_step fst snd]. rewrite node_evs_depth.
+  rewrite !depth_run_cons. cbn [depth_step fst snd]. rewrite depth_run_nil. cbn [fst snd]. split; lia.
+Qed.
+
+(* the recursive push loader on the family: d + 1 nested activations of load_node *)
+Lemma pl_node_family n : forall fuel d tail,
+  pl_node (2 * n + 1 + fuel) d (node_evs n ++ tail) = PlDone tail (d + n).
+Proof.
+  induction n as [|n IH]; intros fuel d tail.
+  - cbn. f_equal. lia.
+  - replace (2 * S n + 1 + fuel) with (S (S (2 * n + 1 + fuel))) by lia.
+    cbn [node_evs app pl_node]. rewrite <- app_assoc. cbn [app].
+    assert (Hne : forall k t, exists e r, node_evs k ++ t = e :: r /\ e <> ESequenceEnd).
+    { intros k t. destruct k; cbn; eexists; eexists; split; try reflexivity; discriminate. }
+    destruct (Hne n (ESequenceEnd :: tail)) as (e & r & He & Hn).
+    cbn [pl_sequence]. rewrite He. destruct e; try congruence; rewrite <- He; rewrite IH;
+      (replace (2 * n + 1 + fuel) with (S (2 * n + fuel)) by lia); cbn [pl_sequence]; f_equal; lia.
+Qed.
+
+Lemma pl_document_family d fuel :
+  pl_document (2 * d + 1 + fuel) (EDocumentStart false :: node_evs d ++ [EDocumentEnd; EStreamEnd])
+  = PlDone [EStreamEnd] (1 + d).
+Proof. cbn [pl_document]. rewrite pl_node_family. reflexivity. Qed.
+
+(* the loader model (heap stacks, no recursion) builds a tree of depth d from the family *)
+Definition leaf_val : yaml := value_of leaf_text Plain None.
+
+Lemma load_node_family n : forall ld tail,
+  load_events (node_evs n ++ tail) ld
+  = match insert_new_node ld (nest_seq n leaf_val) 0%N with
+    | LOk ld' => load_events tail ld'
+    | LPanic k => LPanic k
+    end.
+Proof.
+  induction n as [|n IH]; intros ld tail.
+  - cbn [node_evs app load_events]. unfold leaf_ev. cbn [on_event nest_seq]. reflexivity.
+  - cbn [node_evs app load_events on_event]. rewrite <- app_assoc. rewrite IH.
+    cbn [insert_new_node l_stack N.ltb N.compare l_anchors l_docs l_keys app load_events on_event nest_seq].
+    destruct ld as [docs stack keys anchors]. cbn [l_docs l_stack l_keys l_anchors]. reflexivity.
+Qed.
+
+Lemma load_events_family d :
+  load_events (seq_events d) l0
+  = LOk {| l_docs := [nest_seq d leaf_val]; l_stack := []; l_keys := []; l_anchors := [] |}.
+Proof.
+  unfold seq_events. cbn [load_events on_event]. rewrite load_node_family. reflexivity.
+Qed.
+
+Lemma family_tree_depth d : ydepth (nest_seq d leaf_val) = d /\ forall k, ywalk k (nest_seq d leaf_val) = k + d.
+Proof.
+  assert (H : ydepth (nest_seq d leaf_val) = d).
+  { rewrite ydepth_nest_seq. unfold leaf_val, value_of. destruct (parse_from_cow_and_metadata _ _ _); cbn; lia. }
+  split; [exact H|]. intros k. rewrite walk_depth_is_tree_depth, H. reflexivity.
+Qed.
+
+(* ------------------------------------------------------------------------------------------------ *)
+(* 6. flow nesting: the scanner's flow_level counter cannot pass FLOW_LEVEL_MAX                        *)
+(*    (Gen/Consts.v: generated from the declared type of Scanner::flow_level, u8 -> 255)               *)
+(* ------------------------------------------------------------------------------------------------ *)
+Section Flow.
+Context {I : Type}.
+Local Open Scope N_scope.
+
+(* increase_flow_level (scanner.rs ~1466, checked_add): below the limit the level grows by one and stays
+   within the limit; at the limit the call fails with error site 45 ("recursion limit exceeded") *)
+Lemma increase_flow_level_spec (s : SBase.sc I) :
+  SBase.sc_flow_level s <= Consts.FLOW_LEVEL_MAX ->
+  match SPrim.increase_flow_level s with
+  | SBase.Ok (_, s') =>
+      SBase.sc_flow_level s < Consts.FLOW_LEVEL_MAX /\
+      SBase.sc_flow_level s' = SBase.sc_flow_level s + 1 /\
+      SBase.sc_flow_level s' <= Consts.FLOW_LEVEL_MAX
+  | SBase.Err site m => site = 45 /\ m = SBase.sc_mark s /\ SBase.sc_flow_level s = Consts.FLOW_LEVEL_MAX
+  | _ => False
+  end.
+Proof.
+  intros Hle. unfold SPrim.increase_flow_level, SBase.bind, SBase.get, SBase.put.
+  destruct (SBase.sc_flow_level s =? Consts.FLOW_LEVEL_MAX) eqn:E.
+  - apply N.eqb_eq in E. auto.
+  - apply N.eqb_neq in E. cbn [SBase.sc_flow_level SBase.set_fl SBase.set_struct]. lia.
+Qed.
+
+Lemma increase_flow_level_at_limit (s : SBase.sc I) :
+  SBase.sc_flow_level s = Consts.FLOW_LEVEL_MAX ->
+  SPrim.increase_flow_level s = SBase.Err 45 (SBase.sc_mark s).
+Proof.
+  intros H. unfold SPrim.increase_flow_level, SBase.bind, SBase.get. rewrite H, N.eqb_refl. reflexivity.
+Qed.
+
+(* decrease_flow_level never raises the level *)
+Lemma decrease_flow_level_spec (s : SBase.sc I) :
+  match SPrim.decrease_flow_level s with
+  | SBase.Ok (_, s') => SBase.sc_flow_level s' <= SBase.sc_flow_level s
+  | _ => True
+  end.
+Proof.
+  unfold SPrim.decrease_flow_level, SBase.bind, SBase.get, SBase.put, SBase.ret, SBase.panic.
+  destruct (0 <? SBase.sc_flow_level s) eqn:E.
+  - destruct (SBase.sc_sks s); [trivial|]. cbn [SBase.sc_flow_level SBase.set_sks SBase.set_fl SBase.set_struct]. lia.
+  - lia.
+Qed.
+End Flow.
+
+(* ------------------------------------------------------------------------------------------------ *)
+(* 7. headline statements                                                                            *)
+(* ------------------------------------------------------------------------------------------------ *)
+(* "the parser model accepts no token stream nested deeper than B" *)
+Definition block_nesting_bounded (B : nat) : Prop :=
+  forall toks se keep,
+    snd (parse_tokens toks se keep) = PDone -> max_nesting (evs_of (fst (parse_tokens toks se keep))) <= B.
+
+Lemma block_family_accepted d keep se :
+  length (seq_tokens_flat d) = 3 * d + 3
+  /\ parse_tokens (seq_tokens_flat d) se keep = (evsp (seq_events d), PDone)
+  /\ max_nesting (seq_events d) = d.
+Proof.
+  rewrite <- seq_tokens_is_flat. split; [apply seq_tokens_length|]. split; [apply seq_tokens_accepted|].
+  apply seq_events_depth.
+Qed.
+
+Lemma block_nesting_unbounded : forall B, ~ block_nesting_bounded B.
+Proof.
+  intros B H. specialize (H (seq_tokens_flat (S B)) SEnded false).
+  destruct (block_family_accepted (S B) false SEnded) as (_ & E & D).
+  rewrite E in H. cbn [fst snd] in H. rewrite evs_of_evsp, D in H. specialize (H eq_refl). lia.
+Qed.
+
+(* consequences of an accepted sentence of depth d for the three recursive consumers *)
+Lemma recursion_family d :
+  exists evs y,
+    evs = seq_events d
+    /\ (forall keep se, parse_tokens (seq_tokens_flat d) se keep = (evsp evs, PDone))
+    /\ (forall fuel, pl_document (2 * d + 1 + fuel) (tl evs) = PlDone [EStreamEnd] (1 + d))
+    /\ load_events evs l0 = LOk {| l_docs := [y]; l_stack := []; l_keys := []; l_anchors := [] |}
+    /\ ydepth y = d
+    /\ (forall k, ywalk k y = k + d).
+Proof.
+  exists (seq_events d), (nest_seq d leaf_val).
+  split; [reflexivity|]. split; [intros; apply block_family_accepted|].
+  split; [intros fuel; unfold seq_events; cbn [tl]; apply pl_document_family|].
+  split; [apply load_events_family|]. apply family_tree_depth.
+Qed.
+
+Lemma recursion_unbounded :
+  forall B, exists toks evs fuel rest m y,
+    parse_tokens toks SEnded false = (evsp evs, PDone)
+    /\ pl_document fuel (tl evs) = PlDone rest m /\ B < m
+    /\ load_events evs l0 = LOk {| l_docs := [y]; l_stack := []; l_keys := []; l_anchors := [] |}
+    /\ B < ywalk 1 y.
+Proof.
+  intros B. destruct (recursion_family B) as (evs & y & E & HP & HL & HT & HD & HW).
+  exists (seq_tokens_flat B), evs, (2 * B + 1 + 0), [EStreamEnd], (1 + B), y.
+  split; [apply HP|]. split; [apply HL|]. split; [lia|]. split; [exact HT|]. rewrite HW. lia.
 Qed.
